@@ -1318,6 +1318,8 @@ def _solve_balancing_ilp_pulp(A):
     ]:
         prob += expr == 0
     prob.solve(pulp.PULP_CBC_CMD(msg=False))
+    if pulp.LpStatus[prob.status] != "Optimal":
+        raise ValueError("Failed to balance reaction: no positive integer solution")
     return [pulp.value(_) for _ in x]
 
 
